@@ -17,7 +17,7 @@ func init() {
 		Level:       "exploration",
 		Systematic:  c17Systematic,
 		Random:      c17Random,
-		RandomCount: func(tier string) int { return map[string]int{"quick": 600, "thorough": 60000}[tier] },
+		RandomCount: func(tier string) int { return map[string]int{"quick": 600, "thorough": 300000}[tier] },
 		Eval:        c17Eval,
 		Rule: "CLOCK CLAUSE ONLY (the math built-ins are pure functions and not covered). programs = 1..6 ক্লক() calls whose values are printed at once, stored and printed later, or taken inside a loop / function; schedule = simulated wall clock: start in {0, +-1 s, 1e6, today, year 3000, year 1000 (negative), ...} +- offset, per-read step in {0, 1 ms, 999 ms, 1 s, hours, backward jump, random}, sub-ms fraction; oracle = k-th printed value within 1 s of the simulated instant of the k-th clock read, one read per call, ক্লক(1) is a runtime error. " +
 			"distinct_nontrivial counts distinct (program shape, clock start, step vector) triples with at least one non-default step.",
